@@ -489,7 +489,9 @@ fn map_sizes(report: &mut Report, tier: Tier) {
         let txn2: Vec<Action> = (0..n1)
             .step_by(10)
             .map(|i| Action::Del { index: 0, id: i as u32 })
-            .chain((n1..n1 + n2).map(|i| Action::Add { index: 0, id: i as u32, vec: vecf(i) }))
+            // the new ids are the largest keys of the database: every second one goes through append_item, whose
+            // refusal by LMDB for lack of space must be reported as such, not as an order refusal
+            .chain((n1..n1 + n2).map(|i| if i % 2 == 0 { Action::Append { index: 0, id: i as u32, vec: vecf(i) } } else { Action::Add { index: 0, id: i as u32, vec: vecf(i) } }))
             .chain([Action::Build { index: 0, opts: opts.clone() }])
             .collect();
         // a third transaction without any item operation: the forest shrinks from 3 trees to 1 (two whole trees are deleted)
@@ -508,7 +510,7 @@ fn map_sizes(report: &mut Report, tier: Tier) {
                 let (o, _) = exec(s.db, &mut wtxn, &mut types, a);
                 match &o {
                     crate::exec::Outcome::Unit | crate::exec::Outcome::Bool(_) => match a {
-                        Action::Add { id, vec, .. } => {
+                        Action::Add { id, vec, .. } | Action::Append { id, vec, .. } => {
                             model.insert(*id, vec.clone());
                         }
                         Action::Del { id, .. } => {
@@ -519,6 +521,7 @@ fn map_sizes(report: &mut Report, tier: Tier) {
                     crate::exec::Outcome::Err(ErrKind::MapFull) => {
                         let call = match a {
                             Action::Add { .. } => "add_item",
+                            Action::Append { .. } => "append_item",
                             Action::Del { .. } => "del_item",
                             _ => "build",
                         };
@@ -581,7 +584,7 @@ fn map_sizes(report: &mut Report, tier: Tier) {
                         return;
                     }
                     match a {
-                        Action::Add { id, vec, .. } => {
+                        Action::Add { id, vec, .. } | Action::Append { id, vec, .. } => {
                             m2.insert(*id, vec.clone());
                         }
                         Action::Del { id, .. } => {
